@@ -91,54 +91,81 @@ def build_pch(pch_dir, repo="/repo", libdir=None, flags=(), timeout=600, cxx="g+
     return pch_dir
 
 
+def _run(cmd, what, timeout):
+    p = subprocess.run(cmd, stdout=subprocess.PIPE, stderr=subprocess.STDOUT, text=True, errors="replace", timeout=timeout)
+    if p.returncode != 0:
+        raise EmuBuildError("%s failed:\n%s\n%s" % (what, " ".join(cmd), p.stdout[-6000:]))
+
+
+def compile_launcher(launcher_src, obj, repo="/repo", libdir=None, flags=(), timeout=600, cxx="g++", pch_dir=None):
+    """Compiles a generated launcher (host C++ against the real OCCA headers) into `obj`."""
+    inc_host = (["-I", pch_dir] if pch_dir else []) + ["-I", os.path.join(repo, "include"), "-I", os.path.join(repo, "src")]
+    if libdir:
+        inc_host += ["-I", os.path.join(libdir, "include")]
+    _run(_base(cxx, flags) + inc_host + ["-x", "c++", "-c", launcher_src, "-o", obj], "compiling launcher %s" % launcher_src, timeout)
+    return obj
+
+
 def build_module(mode, device_src, launcher_src, out_so, repo="/repo", libdir=None, flags=(), timeout=600, cxx="g++",
-                 pch_dir=None):
-    """Returns (out_so, kernels). Raises EmuBuildError with the compiler output on failure."""
+                 pch_dir=None, launcher_obj=None):
+    """Returns (out_so, kernels). Raises EmuBuildError with the compiler output on failure.
+    launcher_obj: an object already compiled from an identical launcher source (the five launcher
+    translators share withLauncher, so their launchers are usually byte-identical)."""
     if mode not in SHIM:
         raise EmuBuildError("mode %s has no emulation shim" % mode)
     glue = out_so + ".glue.cpp"
     ks = write_glue(mode, device_src, glue)
-    inc_dev = ["-I", EMU_DIR, "-I", os.path.join(EMU_DIR, "stubs")]
-    inc_host = (["-I", pch_dir] if pch_dir else []) + ["-I", os.path.join(repo, "include"), "-I", os.path.join(repo, "src")]
-    if libdir:
-        inc_host += ["-I", os.path.join(libdir, "include")]
-    base = _base(cxx, flags)
-    objs = []
-    for (src, tag, inc) in ((launcher_src, "launcher", inc_host), (glue, "glue", inc_dev)):
-        obj = "%s.%s.o" % (out_so, tag)
-        cmd = base + inc + ["-x", "c++", "-c", src, "-o", obj]
-        p = subprocess.run(cmd, stdout=subprocess.PIPE, stderr=subprocess.STDOUT, text=True, errors="replace", timeout=timeout)
-        if p.returncode != 0:
-            raise EmuBuildError("compiling %s of %s module failed:\n%s\n%s" % (tag, mode, " ".join(cmd), p.stdout[-6000:]))
-        objs.append(obj)
+    own_launcher = launcher_obj is None
+    if own_launcher:
+        launcher_obj = compile_launcher(launcher_src, out_so + ".launcher.o", repo, libdir, flags, timeout, cxx, pch_dir)
+    glue_obj = out_so + ".glue.o"
+    _run(_base(cxx, flags) + ["-I", EMU_DIR, "-I", os.path.join(EMU_DIR, "stubs"), "-x", "c++", "-c", glue, "-o", glue_obj],
+         "compiling the %s device source of %s" % (mode, device_src), timeout)
     # launcher and device source are separate binaries in a real backend and may both define the
     # kernel file's helper functions: keep only the table global in the device object
-    p = subprocess.run(["objcopy", "--keep-global-symbol=emu_kernel_table", objs[1]],
-                       stdout=subprocess.PIPE, stderr=subprocess.STDOUT, text=True, errors="replace", timeout=timeout)
-    if p.returncode != 0:
-        raise EmuBuildError("objcopy failed:\n%s" % p.stdout[-2000:])
+    _run(["objcopy", "--keep-global-symbol=emu_kernel_table", glue_obj], "objcopy", timeout)
     # the module's undefined symbols (libstdc++, libocca, the emu engine) are resolved from the host
     # executable at dlopen time, so nothing needs to be linked in: -nostdlib + lld is ~5x faster
     san = [f for f in (flags or ()) if f.startswith("-fsanitize")]
     fast = [] if san else ["-nostdlib"] + (["-fuse-ld=lld"] if shutil.which("ld.lld") else [])
-    cmd = [cxx, "-shared", "-o", out_so + ".tmp"] + fast + objs + ["-Wl,-Bsymbolic"] + ([] if fast else ["-lpthread"]) + san
-    p = subprocess.run(cmd, stdout=subprocess.PIPE, stderr=subprocess.STDOUT, text=True, errors="replace", timeout=timeout)
-    if p.returncode != 0:
-        raise EmuBuildError("linking %s module failed:\n%s" % (mode, p.stdout[-4000:]))
+    _run([cxx, "-shared", "-o", out_so + ".tmp"] + fast + [launcher_obj, glue_obj, "-Wl,-Bsymbolic"] +
+         ([] if fast else ["-lpthread"]) + san, "linking the %s module" % mode, timeout)
     os.replace(out_so + ".tmp", out_so)
-    for o in objs:
-        os.unlink(o)
+    os.unlink(glue_obj)
+    if own_launcher:
+        os.unlink(launcher_obj)
     return out_so, ks
 
 
 def build_modules(jobs, workers=4):
-    """jobs: list of dict(mode, device_src, launcher_src, out_so, repo, libdir, flags).
-    Returns list of (job, so or None, error or None) in order."""
+    """jobs: list of dict(mode, device_src, launcher_src, out_so, repo, libdir, flags, pch_dir).
+    Identical launcher sources are compiled once.  Returns list of (job, so or None, error or None) in order."""
+    import hashlib
     res = [None] * len(jobs)
+    groups = {}
+    for i, j in enumerate(jobs):
+        h = hashlib.sha1(open(j["launcher_src"], "rb").read() + repr(sorted((k, str(v)) for k, v in j.items()
+                         if k in ("repo", "libdir", "flags", "pch_dir"))).encode()).hexdigest()
+        groups.setdefault(h, []).append(i)
     with concurrent.futures.ThreadPoolExecutor(max_workers=workers) as ex:
+        lfuts = {}
+        for h, idxs in groups.items():
+            j = jobs[idxs[0]]
+            kw = dict((k, j[k]) for k in ("repo", "libdir", "flags", "pch_dir", "timeout", "cxx") if k in j)
+            lfuts[h] = ex.submit(compile_launcher, j["launcher_src"], j["out_so"] + ".shared-launcher.o", **kw)
+        lobj = {}
+        for h, f in lfuts.items():
+            try:
+                lobj[h] = (f.result(), None)
+            except (EmuBuildError, subprocess.TimeoutExpired) as e:
+                lobj[h] = (None, str(e))
         futs = {}
-        for i, j in enumerate(jobs):
-            futs[ex.submit(build_module, **j)] = i
+        for h, idxs in groups.items():
+            for i in idxs:
+                if lobj[h][1]:
+                    res[i] = (jobs[i], None, lobj[h][1])
+                else:
+                    futs[ex.submit(build_module, launcher_obj=lobj[h][0], **jobs[i])] = i
         for f in concurrent.futures.as_completed(futs):
             i = futs[f]
             try:
@@ -146,4 +173,7 @@ def build_modules(jobs, workers=4):
                 res[i] = (jobs[i], so, None)
             except (EmuBuildError, subprocess.TimeoutExpired) as e:
                 res[i] = (jobs[i], None, str(e))
+    for h, (o, e) in lobj.items():
+        if o and os.path.exists(o):
+            os.unlink(o)
     return res
